@@ -30,7 +30,7 @@ TDo(ev) ==
                               \* deleting something that is not registered has no effect (its return value is not constrained),
                               \* and for an already closed descriptor the kernel's answer is passed on while the registration goes anyway
                               (IF PollDelOk(a[1]) /\ a[1] \in kreg THEN r[1] = 0 ELSE TRUE) /\ PollDel(a[1])
-    [] ev.e = "PollMod"    -> (IF PollModOk(a[1]) /\ a[1] \notin kreg THEN TRUE ELSE Ok(r[1], PollModOk(a[1]))) /\ PollMod(a[1], a[2], a[3])
+    [] ev.e = "PollMod"    -> (IF PollModOk(a[1]) /\ a[1] \notin kreg THEN TRUE ELSE Ok(r[1], PollModOk(a[1]))) /\ PollModFn(a[1], a[2], a[3], a[4])
     [] ev.e = "FdClose"    -> FdClose(a[1])
     [] ev.e = "SigAdd"     -> r[1] = 0 /\ SigAdd(a[1], a[2], a[3])
     [] ev.e = "SigDel"     -> r[1] = 0 /\ SigDel(a[1])
@@ -41,7 +41,7 @@ TDo(ev) ==
     [] ev.e = "Poll"       -> Poll(a[1], SeqToSet(a[2]), a[3], a[4]) /\ now' = r[1]
     [] ev.e = "CbJob"      -> CbJob(a[1])
     [] ev.e = "CbTimer"    -> CbTimer(a[1])
-    [] ev.e = "CbFd"       -> CbFd(a[1], a[2])
+    [] ev.e = "CbFd"       -> CbFd(a[1], a[2]) /\ fds[a[1]].fn = a[3]
     [] ev.e = "CbFdRet"    -> CbFdRet(a[1])
     [] ev.e = "CbSig"      -> CbSig(a[1])
 TraceNext ==
